@@ -8,6 +8,7 @@ import (
 	"reflect"
 	"sort"
 	"strings"
+	"sync/atomic"
 )
 
 // rng is a splitmix64 PRNG: every random choice of a run derives from one seed.
@@ -196,4 +197,14 @@ func listOf(v reflect.Value) string {
 		rows = append(rows, strings.Join(atoms, ","))
 	}
 	return "[" + strings.Join(rows, ";") + "]"
+}
+
+// hangs counts cases in which the implementation did not answer in time. Once a run has seen a
+// few of them it stops: every further case would wait for its timeouts as well, and the cases
+// already emitted are the failing inputs.
+var hangs int32
+
+func noteHang() { atomic.AddInt32(&hangs, 1) }
+func tooManyHangs() bool {
+	return atomic.LoadInt32(&hangs) >= 3
 }
